@@ -7,6 +7,7 @@ from common import case_line, parse_result
 from gen import rand_bounds
 
 LEVEL = "proof"
+BIG_IO = lambda a: "-z" in a        # which command lines of cases.rand_cli the large-input stream keeps
 TAU = bytes.maketrans(b"\n\0", b"\0\n")
 
 
